@@ -230,6 +230,17 @@ def dom_cases():
     out.append(("Kenamond3 point inside the inert obstacle among valid points", lambda: Kenamond3(), np.array([[1.0, 0.0], [4.0, 2.0], [3.0, -4.0]]), 0.0, [0]))
     out.append(("Kenamond3 (3-D) points inside the inert obstacle among valid points", lambda: Kenamond3(geometry=3, x_d=(0.0, 0.0, 5.0)),
                 np.array([[4.0, 2.0, 0.0], [1.0, 0.0, 1.0], [0.0, 3.0, -4.0], [0.5, 0.5, 0.5]]), 0.0, [1, 3]))
+    # beyond the singular time of the solutions that contain powers of (tau^2 - t^2) or (1 - a t): no real solution exists
+    # there (non-integer powers of a negative number came back as complex arrays)
+    from exactpack.solvers.cog.cog20 import Cog20
+    for g in (1, 2, 3):
+        for t in (2.0, -2.0, 1.25 * (1 + 1e-12)):
+            out.append(("Cog6 geometry=%d t=%r (|t| > tau=1.25)" % (g, t), (lambda g=g: Cog6(geometry=g)), r, t))
+            out.append(("Cog18 geometry=%d t=%r (|t| > tau=1.25)" % (g, t), (lambda g=g: Cog18(geometry=g)), r, t))
+        for t in (1 / 0.3, 5.0, 40.0):
+            out.append(("Cog20 geometry=%d t=%r (t >= 1/a, a=0.3)" % (g, t), (lambda g=g: Cog20(geometry=g)), r, t))
+    out.append(("Cog6 b=0.5 tau=2 t=3 (|t| > tau)", lambda: Cog6(b=0.5, tau=2.0), r, 3.0))
+    out.append(("Cog18 alpha=-1.5 beta=2 tau=0.7 t=1 (|t| > tau)", lambda: Cog18(alpha=-1.5, beta=2.0, tau=0.7), r, 1.0))
     return out
 
 
@@ -249,15 +260,15 @@ def run_dom(ctx, p):
     except SolverRaised as ex:
         ctx.observe("restr.domain", name, True, branch=lab, detail=dict(outcome="raised " + type(ex.exc).__name__))
         return
-    dep = [n for n in sol.dtype.names if not n.startswith("position") and n not in ("radius", "region", "xdet") and sol[n].dtype.kind == "f"]
+    dep = [n for n in sol.dtype.names if not n.startswith("position") and n not in ("radius", "region", "xdet") and sol[n].dtype.kind in "fc"]
     # "finite numbers that look like a solution": a record all of whose dependent fields are finite
     allfin = np.ones(len(sol), dtype=bool)
     for n in dep:
-        allfin &= np.isfinite(np.asarray(sol[n], float))
+        allfin &= np.isfinite(np.asarray(sol[n]))      # (a complex number is finite when both of its parts are)
     if judged is not None:
         allfin = allfin[np.asarray(judged, dtype=int)]
     ctx.observe("restr.domain", name, not allfin.any(), branch=lab, detail=dict(outcome="returned", records_entirely_finite=int(allfin.sum()),
-                sample={n: np.asarray(sol[n], float)[:3].tolist() for n in dep[:5]}))
+                sample={n: [str(v) for v in np.asarray(sol[n])[:3]] for n in dep[:5]}))
 
 
 # ---- in-domain finiteness (online) -------------------------------------------------------------------------------------------
@@ -500,7 +511,7 @@ UNITS = [
     Unit("kenamond2.times", gen_k2times, run_k2times, quick=72, thorough=720, min_nontrivial=60),
     Unit("blake.nonpd", gen_blake, run_blake, quick=15 * len(NONPD), thorough=15 * len(NONPD) * 6, min_nontrivial=100),
     Unit("restriction", gen_restr, run_restr, quick=(len(FLAT) + 12) * 2, thorough=(len(FLAT) + 12) * 12, min_nontrivial=len(FLAT)),
-    Unit("domain", gen_dom, run_dom, quick=64, thorough=64, min_nontrivial=45),
+    Unit("domain", gen_dom, run_dom, quick=96, thorough=96, min_nontrivial=70),
     Unit("finite", gen_fin, run_fin, quick=360, thorough=3600, min_nontrivial=250),
     Unit("series", gen_series, run_series, quick=90, thorough=1800, min_nontrivial=60),
 ]
